@@ -40,7 +40,6 @@ class Method:
         self.fresh = 0
         self.is_new = fn.name == "__new__"
         self.is_coerce = fn.name == "coerce_view"
-        self.other = None
         if self.is_new:
             if self.params != ["value"]:
                 bad(fn, "unexpected constructor parameters")
@@ -59,7 +58,7 @@ class Method:
 
     def tmp(self):
         self.fresh += 1
-        return "x%d" % self.fresh
+        return "tmp%d" % self.fresh
 
     # ---- recognisers
     def is_recv_class(self, e):
